@@ -158,9 +158,43 @@ def classify(t):
           return 'SAFE', a[1]
     if name in ('jax.numpy.exp', 'numpy.exp'):
       return 'SAFE', None
+  # 1 - clip(x, a, b)**2 with -1 < a, b < 1 is bounded away from 0 (the complement of a clipped sine / cosine)
+  if t[0] == 'bin' and t[1] == 'Sub' and pred.is_const(t[2]) and t[2][1] == 1:
+    sq = t[3]
+    base = None
+    if sq[0] == 'bin' and sq[1] == 'Pow' and pred.is_const(sq[3]) and sq[3][1] in (2, 2.0):
+      base = sq[2]
+    elif sq[0] == 'bin' and sq[1] == 'Mult' and sq[2] == sq[3]:
+      base = sq[2]
+    if base is not None and base[0] == 'call' and base[1] in ('jax.numpy.clip', 'numpy.clip') and len(base[2]) >= 3:
+      lo, hi = base[2][1], base[2][2]
+      vals = []
+      for b_ in (lo, hi):
+        v = _num_of(b_)
+        vals.append(v)
+      if None not in vals and -1 < vals[0] <= vals[1] < 1:
+        return 'SAFE', None
   if is_param(t):
     return 'PARAM', None
   return 'BARE', None
+
+
+def _num_of(t):
+  """Numeric value of a constant term built from literals with + - (e.g. -1 + 1e-07), else None."""
+  if pred.is_const(t) and isinstance(t[1], (int, float)) and not isinstance(t[1], bool):
+    return float(t[1])
+  if t[0] == 'bin' and t[1] in ('Add', 'Sub'):
+    a, b = _num_of(t[2]), _num_of(t[3])
+    if a is None or b is None:
+      return None
+    return a + b if t[1] == 'Add' else a - b
+  if t[0] == 'un' and t[1] == 'USub':
+    a = _num_of(t[2])
+    return None if a is None else -a
+  if t[0] == 'neg':
+    a = _num_of(t[1])
+    return None if a is None else -a
+  return None
 
 
 class Site:
